@@ -50,6 +50,9 @@ def _worker(conn, modname, idx, tier, seed, replay_dir, mode, prefix=None, first
         inst = insts[idx]
         if mode == 'bounded':
             rep = run_bounded(inst, tier, seed, replay_dir)
+        elif mode == 'lemma':
+            from . import lemmas
+            rep = lemmas.run_lemma(inst)
         elif mode == 'probe':
             rep = {'key': inst.key, 'prefixes': I.probe_prefixes(inst), 'error': None}
         else:
@@ -183,7 +186,8 @@ def run_pool(modname, jobs, tier, seed, replay_dir, njobs, verbose):
     # job = (idx, inst, mode, prefix, first)
     pending = []
     for idx, inst in jobs:
-        mode = 'bounded' if getattr(inst, 'mode', 'proof') == 'bounded' else 'proof'
+        mode = getattr(inst, 'mode', 'proof')
+        mode = mode if mode in ('bounded', 'lemma') else 'proof'
         if mode == 'proof' and getattr(inst, 'shard_depth', 0) > 0:
             pending.append((idx, inst, 'probe', None, True))
         else:
